@@ -62,7 +62,13 @@ pub struct Exp {
 pub fn compare(exp: &Exp, d: &Delta, home: u32, sem: bool, what: &str, cx: &mut Ctx) -> Vec<usize> {
     let lc = if sem { home } else { LIFETIME | home };
     // --- reference-count traffic
-    let got: Vec<&AOp> = d.atom.iter().filter(|a| a.is_rmw()).collect();
+    // Writes to the count word of a block that this very step returns to the allocator are not
+    // observable through any handle (there is none left): whether the last release goes through
+    // 1 -> 0 by fetch_sub, by compare_exchange, or not at all is the implementation's business.
+    let freed: Vec<(usize, usize)> = d.events.iter().filter(|e| e.kind == EvKind::Dealloc).map(|e| (e.addr, e.size)).collect();
+    let in_freed = |addr: usize| freed.iter().any(|(a, sz)| addr >= *a && addr < *a + (*sz).max(1));
+    let got: Vec<&AOp> = d.atom.iter().filter(|a| a.is_rmw() && !in_freed(a.addr)).collect();
+    let exp_rmw: Vec<(usize, usize, Rmw, usize)> = exp.rmw.iter().filter(|e| !in_freed(e.0)).cloned().collect();
     let matches = |want: &[(usize, usize, Rmw, usize)]| -> bool {
         got.len() == want.len()
             && got.iter().zip(want.iter()).all(|(g, e)| {
@@ -76,14 +82,14 @@ pub fn compare(exp: &Exp, d: &Delta, home: u32, sem: bool, what: &str, cx: &mut 
                 inside && g.delta() == want_delta
             })
     };
-    let mut ok = matches(&exp.rmw);
+    let mut ok = matches(&exp_rmw);
     if !ok && !exp.rmw_optional.is_empty() {
-        let reduced: Vec<_> = exp.rmw.iter().enumerate().filter(|(i, _)| !exp.rmw_optional.contains(i)).map(|(_, e)| *e).collect();
+        let reduced: Vec<_> = exp.rmw.iter().enumerate().filter(|(i, e)| !exp.rmw_optional.contains(i) && !in_freed(e.0)).map(|(_, e)| *e).collect();
         ok = matches(&reduced);
     }
     if !ok {
         let f = if sem { Ctx::fail_derail } else { Ctx::fail };
-        f(cx, if sem { home } else { COUNT | (home & (THIN | COW | UNWRAP)) }, "rmw-traffic", format!("{}: counter writes differ: expected {:?} (block,size,kind,operand), got {:?}", what, exp.rmw, got.iter().map(|g| (g.addr, g.kind, g.old, g.new)).collect::<Vec<_>>()));
+        f(cx, if sem { home } else { COUNT | (home & (THIN | COW | UNWRAP)) }, "rmw-traffic", format!("{}: counter writes differ: expected {:?} (block,size,kind,operand), got {:?}", what, exp_rmw, got.iter().map(|g| (g.addr, g.kind, g.old, g.new)).collect::<Vec<_>>()));
     }
     // --- destructors
     let mut a = d.drops.clone();
